@@ -10,7 +10,7 @@ REPLY_KINDS = ("query", "prepare", "execute", "init", "fieldlist", "ping")
 
 
 def mk_case(cid, cmds, scripts=(), lim=U24_MAX, chunks=None, user=b"jon", auth="ok", tls=0, dinit=0,
-            hs=None, hs_seq=1, eof=True, quit=False):
+            hs=None, hs_seq=1, eof=True, quit=False, cap=2048):
     """cmds: list of (kind, payload[, seq]).  The whole client stream is framed with `lim`."""
     c = Case(cid, lim=lim, tls=tls, auth=auth, dinit=dinit)
     hs_payload = hs if hs is not None else hs41(user)
@@ -27,7 +27,7 @@ def mk_case(cid, cmds, scripts=(), lim=U24_MAX, chunks=None, user=b"jon", auth="
     if quit:
         stream += frame(cmd_quit(), 0, lim)
         meta.append(("quit", cmd_quit(), 0))
-    c.reads = rechunk(stream, chunks or [2048])
+    c.reads = rechunk(stream, chunks or [2048], cap)
     c.scripts = list(scripts)
     c.meta = dict(cmds=meta, hs=hs_payload, hs_seq=hs_seq, stream=stream)
     return c
